@@ -190,6 +190,7 @@ namespace sx {
   bool current_model(Model * m);  // a model of the current path condition
 
   SymReal fresh(const std::string & name);                       // fresh unconstrained real
+  SymReal uf(const std::string & name, const std::vector<SymReal> & args); // uninterpreted function application
   SymReal fresh_in(const std::string & name, sx_real lo, sx_real hi, bool open = true);
   SymReal deviate();              // next shared uniform deviate u_k, 0<u_k<1
   int draws();                    // deviates consumed on the current side
